@@ -1,5 +1,5 @@
 (* C16 — the penalty parameter is positive and never decreases. *)
-From Verif Require Import Loop LoopInst LoopProofs LoopProofs2 LoopTop PenaltyProofs.
+From Verif Require Import Penalty Loop LoopInst LoopProofs LoopProofs2 LoopTop PenaltyProofs PenaltyProofs2.
 From Coq Require Import Lqa.
 
 (* policy level: every policy only ever raises its own penalty, announces exactly its own penalty, and
@@ -26,6 +26,63 @@ Theorem C16_no_internal_assert : forall pol prm stp d w,
   (pol = Pareto -> d_bound d <> None) ->
   p_update pol prm stp d <> PAssert w.
 Proof. exact policy_no_assert. Qed.
+
+(* ParetoDecrease: never vetoes, at most a factor of ten per update, never beyond max(rho, its bound), and
+   changes the penalty only when both the violation and the infeasibility measure exceed their tolerances *)
+Theorem C16_pareto_bounds : forall prm stp d stp' nrho a,
+  0 < ps_rho stp -> p_update Pareto prm stp d = PRes stp' nrho a ->
+  a = true /\ ps_rho stp' <= ps_rho stp * 10
+  /\ (ps_rho stp' = ps_rho stp
+      \/ exists b, d_bound d = Some b /\ ps_rho stp' <= qmax b (ps_rho stp)
+                   /\ qle (d_viol d) (pp_opt_tol prm) = false
+                   /\ qle (d_infeas_inf d) (pp_infeas_tol prm) = false).
+Proof. exact pareto_bounds. Qed.
+
+(* DualEquilibration: never vetoes; a change is at least tenfold and reaches the equilibration target *)
+Theorem C16_dualequil_bounds : forall prm stp d stp' nrho a,
+  0 < ps_rho stp -> p_update DualEquil prm stp d = PRes stp' nrho a ->
+  a = true
+  /\ (ps_rho stp' = ps_rho stp
+      \/ (ps_rho stp * 10 <= ps_rho stp' /\ c_001 * d_yprod d / d_viol d <= ps_rho stp'
+          /\ ps_rho stp < c_001 * d_yprod d / d_viol d)).
+Proof. exact dualequil_bounds. Qed.
+
+(* only the two filter policies ever veto a step, and their veto is exactly a tenfold increase with the
+   filter entries untouched; an acceptance leaves the penalty alone *)
+Theorem C16_veto_only_filters : forall pol prm stp d stp' nrho,
+  p_update pol prm stp d = PRes stp' nrho false -> pol = ObjFilter \/ pol = LagFilter.
+Proof. exact veto_only_filters. Qed.
+
+Theorem C16_filter_policy_rho : forall pol prm stp d stp' nrho a,
+  pol = ObjFilter \/ pol = LagFilter ->
+  p_update pol prm stp d = PRes stp' nrho a ->
+  (a = true -> ps_rho stp' = ps_rho stp)
+  /\ (a = false -> ps_rho stp' = ps_rho stp * 10 /\ ps_entries stp' = ps_entries stp).
+Proof. exact filter_policy_rho. Qed.
+
+(* policy level, whole histories: whatever sequence of update data a policy object is fed (any length, any
+   values, any policy), the penalties it announces are non-decreasing from its starting penalty, lie between
+   the starting and the final penalty, the final penalty is positive, and the constant policy announces
+   params.rho every time.  p_run stops at a failed internal assertion (excluded by C16_no_internal_assert). *)
+Theorem C16_policy_history : forall pol prm ds st fin rs,
+  0 < pp_rho prm -> 0 < ps_rho st -> (pol = Constant -> ps_rho st == pp_rho prm) ->
+  p_run pol prm st ds = Some (fin, rs) ->
+  q_nondecr_from (ps_rho st) rs /\ ps_rho st <= ps_rho fin /\ 0 < ps_rho fin
+  /\ length rs = length ds
+  /\ (forall r, In r rs -> ps_rho st <= r /\ r <= ps_rho fin)
+  /\ (pol = Constant -> forall r, In r rs -> r == pp_rho prm).
+Proof. exact policy_history. Qed.
+
+(* non-vacuity of the history statement: a ParetoDecrease run with a capped, a tenfold and a kept update *)
+Example C16_history_nonvacuous :
+  let prm := {| pp_rho := 1; pp_opt_tol := 1 # 10; pp_infeas_tol := 1 # 10 |} in
+  let d v b := {| d_m0 := false; d_ynorm := 0; d_yprod := 0; d_viol := v; d_infeas_inf := v;
+                  d_bound := Some b; d_entry := (0, 0); d_lag_entry := fun _ => (0, 0) |} in
+  match p_run Pareto prm (p_init prm) [d 1 4; d 1 1000; d 0 1000; d 1 3] with
+  | Some (fin, rs) => map Qred rs = [4; 40; 40; 40] /\ Qred (ps_rho fin) = 40
+  | None => False
+  end.
+Proof. vm_compute. split; reflexivity. Qed.
 
 Section C16.
   Variable It : Type.
@@ -64,3 +121,17 @@ Print Assumptions C16_constant_unchanged.
 Print Assumptions C16_dualnorm_bounds.
 Print Assumptions C16_no_internal_assert.
 Print Assumptions C16_trial_penalties.
+Print Assumptions C16_pareto_bounds.
+Print Assumptions C16_dualequil_bounds.
+Print Assumptions C16_veto_only_filters.
+Print Assumptions C16_filter_policy_rho.
+Print Assumptions C16_policy_history.
+
+(* the tie of C16_policy_history to the code: p_run's announced penalties are the trace that the correspondence
+   unit `penalty` compares with penalty.py's update() on every run *)
+Theorem C16_history_is_the_compared_trace : forall pol prm ds st fin rs,
+  p_run pol prm st ds = Some (fin, rs) ->
+  map (fun o : option (Q * bool * Q * nat) => match o with Some (r, _, _, _) => Some r | None => None end)
+      (CorrPenalty.update_trace pol prm st ds) = map Some rs.
+Proof. exact p_run_trace. Qed.
+Print Assumptions C16_history_is_the_compared_trace.
